@@ -73,6 +73,14 @@ class Api:
     def system(self, i):
         return self.sys[i]
 
+    def fresh_view(self):
+        """the same API on system objects nobody has used yet"""
+        import copy  # pylint: disable=import-outside-toplevel
+        v = copy.copy(self)
+        cart = self.CoordinateSystem(self.S.CARTESIAN)
+        v.sys = [cart, self.coordinates_transform(cart, self.S.CYLINDRICAL), self.coordinates_transform(cart, self.S.SPHERICAL)]
+        return v
+
     def fresh(self, i):
         """another system of kind i (for same-kind rebases)"""
         return self.coordinates_transform(self.sys[0], self.types[i])
@@ -207,7 +215,34 @@ FIELDS = {
 }
 
 
-def spec_checks(api: Api):
+class FreshProxy:
+    """delegates to an Api whose system objects are renewed before every predicate evaluation: a specification predicate
+    never depends on what was done before (histories are the business of `history_stream`)"""
+
+    def __init__(self, base):
+        self._base = base
+        self._cur = base.fresh_view()
+
+    def renew(self):
+        self._cur = self._base.fresh_view()
+
+    def __getattr__(self, name):
+        return getattr(self._cur, name)
+
+
+def spec_checks(base_api: Api):
+    api = FreshProxy(base_api)
+    checks = _spec_checks(api)
+
+    def wrap(pred):
+        def w(inp):
+            api.renew()
+            return pred(inp)
+        return w
+    return {k: (g, wrap(p)) for k, (g, p) in checks.items()}
+
+
+def _spec_checks(api):
     """name -> (generator(rng) -> input dict, predicate(input) -> (ok, observed, expected)).  Every predicate
     calls the real code only and compares with what the property text demands."""
     checks = {}
@@ -537,6 +572,100 @@ def build(api: Api, gen: Gen):
                     f"{n} field rebased to Cartesian: same value at the same point")
 
 
+
+# ---------------------------------------------------------------------------------------------------------
+# history stream: operations that REUSE the same system objects with different vectors / points / fields
+# ---------------------------------------------------------------------------------------------------------
+
+def hist_step(v: Api, st):
+    try:
+        op, s = st["op"], st["sys"]
+        if op == "rebase":
+            return [num(e) for e in v.rebase(s, st["to"], _dress(st["u"], "Float"))]
+        if op == "dot":
+            return [num(v.dot(s, _dress(st["u"], "Float"), _dress(st["v"], "Float")))]
+        if op == "magnitude":
+            return [num(v.mag(s, _dress(st["u"], "Float")))]
+        if op == "scale":
+            return [num(e) for e in v.scale(s, sp.Float(st["k"]), _dress(st["u"], "Float"))]
+        return [num(v.field_rebased_at(s, st["to"], FIELDS[st["field"]], _dress(st["u"], "Float"), st["how"], st["via"]))]
+    except Exception as e:  # pylint: disable=broad-except
+        return ("exception", f"{type(e).__name__}: {str(e)[:300]}")
+
+
+def hist_same(x, y):
+    return not isinstance(x, tuple) and not isinstance(y, tuple) and close(x, y)
+
+
+def hist_first_bad(api: Api, seq):
+    shared = api.fresh_view()
+    got = [hist_step(shared, st) for st in seq]
+    for i, st in enumerate(seq):
+        ref = hist_step(api.fresh_view(), st)
+        if not hist_same(got[i], ref):
+            return i, got[i], ref
+    return None
+
+
+def hist_gen(rng):
+    pair = rng.choice([(0, 1), (0, 2), (1, 0), (2, 0)])
+    seq = []
+    for _ in range(rng.randint(3, 6)):
+        a, b = pair if rng.random() < 0.6 else (pair[1], pair[0])
+        op = rng.choice(["rebase", "rebase", "field", "dot", "magnitude", "scale"])
+        st = {"op": op, "sys": a, "to": b, "u": list(gen_point(rng, a)), "v": list(gen_point(rng, a)), "k": away(rng)}
+        if op == "field":
+            st.update({"u": list(gen_point(rng, b)), "field": rng.choice(sorted(FIELDS)), "how": rng.choice(["expr", "lambda"]),
+                       "via": rng.choice(["point", "basis"])})
+        seq.append(st)
+    return seq
+
+
+def hist_describe(st):
+    n = lambda i: LOW[SYSN[i]]
+    if st["op"] == "rebase":
+        return f"Vector({st['u']}, {n(st['sys'])}).rebase({n(st['to'])})"
+    if st["op"] == "field":
+        return f"field {st['field']}/{st['how']} in {n(st['sys'])} .rebase({n(st['to'])}) at {st['u']} via {st['via']}"
+    if st["op"] == "dot":
+        return f"dot_vectors({st['u']}, {st['v']}) in {n(st['sys'])}"
+    if st["op"] == "scale":
+        return f"scale_vector({st['k']}, {st['u']}) in {n(st['sys'])}"
+    return f"vector_magnitude({st['u']}) in {n(st['sys'])}"
+
+
+def history_stream(ctx, api: Api):
+    rng = ctx.rng
+    seqs = [hist_gen(rng) for _ in range(ctx.pick(10, 80))]
+    steps, reported = 0, set()
+    for seq in seqs:
+        steps += len(seq)
+        bad = hist_first_bad(api, seq)
+        if bad is None:
+            continue
+        cur = seq[:bad[0] + 1]
+        j = len(cur) - 2
+        while j >= 0:
+            cand = cur[:j] + cur[j + 1:]
+            b2 = hist_first_bad(api, cand)
+            if b2 is not None and b2[0] == len(cand) - 1:
+                cur = cand
+            j -= 1
+        b3 = hist_first_bad(api, cur)
+        got, ref = (b3[1], b3[2]) if b3 else (bad[1], bad[2])
+        last = cur[-1]
+        key = f"C11:history:{last['op']}_{LOW[SYSN[last['sys']]]}_{LOW[SYSN[last['to']]]}"
+        if key in reported:
+            continue
+        reported.add(key)
+        ctx.violation(key, "result depends on earlier operations on the same system objects: after "
+            + "; ".join(hist_describe(x) for x in cur[:-1]) + f" the call {hist_describe(last)} returns {got}, but {ref} "
+            "when made first on fresh system objects",
+            {"kind": "history", "sequence": cur, "observed_last": got, "expected_last": ref,
+             "theorem_or_tie": "history independence (same call on fresh system objects)"}, found_input=True)
+    ctx.sample({"history_sequence": [hist_describe(x) for x in seqs[0]]})
+    return len(seqs), steps
+
 # ---------------------------------------------------------------------------------------------------------
 # finite tables
 # ---------------------------------------------------------------------------------------------------------
@@ -731,6 +860,11 @@ def run(ctx):
                 {"kind": "broken-tie", "theorem_or_tie": "reading of sympy.atan2 as Base.Atan2.atan2", "input": [y, x]}, found_input=False)
             break
 
+    # ---- 3c. history stream ----------------------------------------------------------------------------------------------
+    n_hist, hist_steps = history_stream(ctx, api)
+    n_obl += hist_steps
+    ctx.coverage["history_sequences"] = n_hist
+
     # ---- 4. refusal tables (exhaustive) --------------------------------------------------------------------------
     rows = refusal_tables(api)
     tr = [r for r in rows if not r.get("call")]
@@ -801,6 +935,8 @@ def run(ctx):
     ctx.coverage["rule"] = ("spec checks: per check (4 round trips, dot/magnitude/scale in cyl and sph, 4 field directions) seeded points "
         "inside the domain, |coordinates| in [0.2,3], radius >= 0.2, polar angle in [0.15,2.9], dressed as float/Float/Rational; "
         "value-obliviousness: every non-field leg run on concrete numbers and compared with its generic output; "
+        "history stream: seeded sequences of 3-6 operations (rebase both directions, field rebase, dot, magnitude, scale) on ONE set of "
+        "system objects, each result compared with the same call on fresh system objects; "
         "tables: all 27 (operation, from, to) rows and all 24 (callable, point kind, field kind) rows. "
         "distinct = distinct (check, input) pairs; all are non-trivial (off the singular sets, all components non-zero)")
     ctx.coverage["spec_checks"] = sorted(checks)
@@ -809,6 +945,20 @@ def run(ctx):
 
 def replay(ctx, rep):
     api = Api()
+    if rep.get("kind") == "history":
+        seq = rep["sequence"]
+        shared = api.fresh_view()
+        bad = False
+        for st in seq:
+            g = hist_step(shared, st)
+            ref = hist_step(api.fresh_view(), st)
+            same = hist_same(g, ref)
+            bad = bad or not same
+            print(hist_describe(st))
+            print("   on the reused system objects :", g)
+            print("   on fresh system objects      :", ref, "" if same else "   <-- DIFFERS")
+        print("->", "FAILS (history dependent)" if bad else "holds")
+        return 1 if bad else 0
     kind = rep.get("kind")
     if kind == "spec" or rep.get("check"):
         name = rep["check"]
